@@ -13,9 +13,12 @@ from collections import Counter
 
 PKG = "vcr/verifier"
 HARNESS = ["vcr/verifier/zz_verif_c01_test.go"]
+PKG2 = "vcr/test"
+HARNESS2 = ["vcr/test/zz_verif_c01s_test.go"]
+HARNESSES = [(PKG, HARNESS, "c01"), (PKG2, HARNESS2, "c01s")]
 
 REQUIRED = ["check_order_irrelevant_for_accept", "valid_only_if", "key_is_from_the_issuers_document",
-            "vp_valid_only_if", "vp_every_other_credential_is_signature_checked", "fact_check_signature_flag_is_per_credential", "untrust_is_effective", "untrusted_issuer_is_rejected", "fact_trust_store_code", "fact_wiring", "fact_verifier_is_stateless", "fact_strict_mode_fixes_the_contexts", "fact_key_lookup_iterates_the_relationship", "fact_status_list_renewal_loads_revocations", "fact_status_list_refresh_replaces_all_columns", "api_vc_valid_only_if", "wallet_lists_only_current_unrevoked", "wallet_validate_ok", "vp_check_order_irrelevant_for_accept", "empty_presentation_holder_is_not_checked",
+            "vp_valid_only_if", "vp_every_other_credential_is_signature_checked", "fact_check_signature_flag_is_per_credential", "untrust_is_effective", "untrusted_issuer_is_rejected", "fact_trust_store_code", "fact_wiring", "fact_store_credential_always_verifies_the_signature", "stored_credentials_were_signature_checked", "resolve_reports_only_signature_checked", "fact_verifier_is_stateless", "fact_strict_mode_fixes_the_contexts", "fact_key_lookup_iterates_the_relationship", "fact_status_list_renewal_loads_revocations", "fact_status_list_refresh_replaces_all_columns", "api_vc_valid_only_if", "wallet_lists_only_current_unrevoked", "wallet_validate_ok", "vp_check_order_irrelevant_for_accept", "empty_presentation_holder_is_not_checked",
             "tamper_evident", "tamper_evident_jwt", "tamper_evident_vp", "undefined_member_unsigned",
             "own_output_verifies_ld", "own_output_verifies_jwt", "own_presentation_verifies",
             "fact_verify_check_sequence", "fact_doVerifyVP_check_sequence", "fact_jsonldProof_check_sequence",
@@ -123,6 +126,34 @@ def run(ctx):
         ctx.oblige("harness-runs", False, log[-1500:])
         return
     ctx.oblige("harness-runs", True)
+    # ---------------- second harness: the network-ingest path (StoreCredential -> Resolve / wallet) on a real in-process node
+    if not ctx.replay:
+        binary2 = ctx.go_test_binary(PKG2, HARNESS2, "c01s")
+        if binary2 is None:
+            ctx.oblige("harness2-builds", False, ctx.harness_error[-1500:])
+        else:
+            out2 = os.path.join(ctx.scratch, "out2")
+            rc2, log2, out2 = ctx.run_harness(binary2, "TestVerifC01Store", {}, outdir=out2, timeout=600)
+            ctx.oblige("harness2-runs", rc2 == 0, log2[-1200:])
+            if rc2 == 0:
+                ops2 = [json.loads(l) for l in ctx.read_lines(os.path.join(out2, "ops.jsonl")) if l]
+                impl2 = [l for l in ctx.read_lines(os.path.join(out2, "impl.out"))]
+                wrong = 0
+                seen_hist = set()
+                for k, op in enumerate(ops2):
+                    got = impl2[k] if k < len(impl2) else None
+                    if got != op.get("expect"):
+                        wrong += 1
+                        hname = (op.get("label", "").split(":") + ["", ""])[1]
+                        if hname in seen_hist:
+                            continue
+                        seen_hist.add(hname)
+                        hist = "\n".join(json.dumps(dict(o, got=impl2[j] if j < len(impl2) else None)) for j, o in enumerate(ops2[:k + 1]))
+                        ctx.violation("C01:network-ingest:" + re.sub(r"[^a-z:-]", "", op.get("label", "").split(":")[0] + ":" + op.get("label", "").split(":")[-1]),
+                                      f"{op.get('label')}: the node did `{got}`, the property demands `{op.get('expect')}` (history in the replay file; re-run: go test -tags verif -run TestVerifC01Store ./vcr/test)",
+                                      "network-ingest-" + re.sub(r"[^a-z0-9-]", "", hname) + ".jsonl", hist)
+                ctx.oblige("oracle:network-ingest(StoreCredential->Resolve/wallet)(impl)", wrong == 0 and len(ops2) > 0, f"{wrong} wrong of {len(ops2)} steps")
+                ctx.cov["network_ingest_steps"] = len(ops2)
     ops_p, impl_p, model_p = (os.path.join(out, x) for x in ("ops.jsonl", "impl.out", "model.out"))
     ok, err = ctx.model("C01", ops_p, model_p)
     ctx.oblige("model-driver-runs", ok, err[-500:])
